@@ -398,7 +398,7 @@ def run_kani_unit(uid, cfg, tier='quick'):
     cmds = []
     for (solver, unwind, extra), hs in groups.items():
         cmd = ['cargo', 'kani', '-Z', 'function-contracts', '-Z', 'stubbing', '--solver', solver,
-               '-j', str(cfg.get('jobs', 4)), '--output-format', 'regular']
+               '-j', str(cfg.get('jobs', 6)), '--output-format', 'terse']
         if unwind:
             cmd += ['--default-unwind', str(unwind)]
         cmd += list(extra)
@@ -419,59 +419,80 @@ def run_kani_unit(uid, cfg, tier='quick'):
                 l for l in out.split('\n') if l.startswith('error'))[:600])
             res['raw'] = out[-4000:]
             continue
-        # split per harness
-        chunks = re.split(r'(?m)^Checking harness ([^\s.]+(?:::[^\s.]+)*)\.\.\.', out)
+        # split per harness (terse output: one block per harness)
+        # terse -j output: "Thread N: Checking harness X..." at start, "Thread N: " + result block at the end
+        cur_by_thread, blocks, active = {}, [], None
+        for line in out.split('\n'):
+            m1 = re.match(r'^(?:Thread (\d+): )?Checking harness (\S+?)\.\.\.\s*$', line)
+            if m1:
+                cur_by_thread[m1.group(1) or '0'] = m1.group(2)
+                if m1.group(1) is None:
+                    active = [m1.group(2), []]
+                    blocks.append(active)
+                else:
+                    active = None
+                continue
+            m2 = re.match(r'^Thread (\d+): \s*$', line)
+            if m2:
+                active = [cur_by_thread.get(m2.group(1), '?'), []]
+                blocks.append(active)
+                continue
+            if line.startswith('Manual Harness Summary') or line.startswith('Thread '):
+                active = None
+                continue
+            if active is not None:
+                active[1].append(line)
         seen = set()
-        for k in range(1, len(chunks), 2):
-            hname = chunks[k].strip()
-            body = chunks[k + 1]
-            h = next((x for x in hs if hname.endswith(x['name'])), None)
+        for hname, blines in blocks:
+            body = '\n'.join(blines)
+            h = next((x for x in hs if hname == x['name'] or hname.endswith('::' + x['name'])), None)
             if h is None:
                 continue
             seen.add(h['name'])
-            checks = parse_kani(body)
             ver = re.search(r'VERIFICATION:- (\w+)', body)
             verdict = ver.group(1) if ver else 'UNKNOWN'
             tm = re.search(r'Verification Time: ([0-9.]+)s', body)
             vt = float(tm.group(1)) if tm else 0.0
-            bad = [c for c in checks if c.get('status') not in ('SUCCESS', 'UNREACHABLE', 'SATISFIED', 'UNSATISFIABLE')]
-            cover_unsat = [c for c in checks if c['name'].split('.')[-2:-1] == ['cover'] and c.get('status') != 'SATISFIED']
-            hr = {'harness': h['name'], 'verdict': verdict, 'checks': len(checks), 'time_s': vt, 'solver': solver,
+            mm = re.search(r'\*\* (\d+) of (\d+) failed', body)
+            nfail, nchecks = (int(mm.group(1)), int(mm.group(2))) if mm else (0, 0)
+            cm = re.search(r'\*\* (\d+) of (\d+) cover properties satisfied', body)
+            csat, ctot = (int(cm.group(1)), int(cm.group(2))) if cm else (0, 0)
+            fcs = [{'description': d.strip().strip('"'), 'location': '%s:%s in %s' % (f, l, fn), 'name': fn}
+                   for d, f, l, fn in re.findall(r'Failed Checks: (.*)\n\s*File: "([^"]*)", line (\d+), in (\S+)', body)]
+            hr = {'harness': h['name'], 'verdict': verdict, 'checks': nchecks, 'time_s': vt, 'solver': solver,
                   'complete': not h.get('bounded'), 'bound': h.get('bounded'), 'clause': h.get('clause', ''),
-                  'failed_checks': [{'name': c['name'], 'description': c.get('description'), 'location': c.get('location'),
-                                     'status': c.get('status')} for c in bad if c['name'].split('.')[-2:-1] != ['cover']][:20],
-                  'covers': len([c for c in checks if '.cover.' in c['name']]),
-                  'covers_unsatisfied': [c.get('description') for c in cover_unsat]}
+                  'failed_checks': fcs[:20], 'covers': ctot, 'covers_satisfied': csat}
             res['harnesses'].append(hr)
             res['smt_time_s'] += vt
             oom = 'out of memory' in body.lower() or 'std::bad_alloc' in body
-            if oom or verdict == 'UNKNOWN' or (verdict == 'FAILED' and not hr['failed_checks'] and not cover_unsat):
+            if oom or verdict == 'UNKNOWN' or not mm or (verdict == 'FAILED' and not fcs and csat == ctot):
                 undec.append('%s: no verdict (%s)' % (h['name'], 'out of memory' if oom else verdict))
                 continue
             if h.get('expect_fail'):
-                # canary harness: must fail
                 if verdict != 'FAILED':
                     undec.append('canary harness %s was not rejected' % h['name'])
                 continue
-            if cover_unsat:
-                undec.append('%s: vacuity guard: cover not satisfiable: %s' % (h['name'], hr['covers_unsatisfied']))
+            if csat != ctot:
+                undec.append('%s: vacuity guard: %d of %d cover properties satisfied' % (h['name'], csat, ctot))
                 continue
-            unwind_fail = [c for c in hr['failed_checks'] if 'unwind' in (c['name'] + (c['description'] or ''))]
-            if unwind_fail:
+            if any('unwinding assertion' in c['description'] for c in fcs):
                 undec.append('%s: unwinding assertion failed (bound too small): machinery' % h['name'])
                 continue
             if h.get('bounded'):
-                res['bounded'].append({'harness': h['name'], 'bound': h['bounded'], 'checks': len(checks),
-                                       'verdict': verdict})
+                res['bounded'].append({'harness': h['name'], 'bound': h['bounded'], 'checks': nchecks, 'verdict': verdict})
             else:
-                res['obligations'] += len(checks)
-                res['discharged'] += len(checks) - len(hr['failed_checks'])
-            for c in hr['failed_checks']:
-                desc = c['description'] or ''
+                res['obligations'] += nchecks
+                res['discharged'] += nchecks - nfail
+            for c in fcs:
+                desc = c['description']
                 m = re.match(r'^\[([A-Za-z0-9_.:\-]+)\]', desc)
-                cid = m.group(1) if m else '%s.%s.safety:%s' % (uid, h['name'], re.sub(r'[^a-z0-9]+', '-', c['name'].split('.')[-2] if '.' in c['name'] else c['name']))
-                res['failed'].append({'id': cid if cid.startswith(uid) else '%s.%s' % (uid, cid), 'kind': 'kani-check', 'message': desc,
-                                      'harness': h['name'], 'location': c['location'], 'bounded': bool(h.get('bounded'))})
+                short = h['name'].split('::')[-1]
+                if m:
+                    cid = '%s.%s.%s' % (uid, short, m.group(1))
+                else:
+                    cid = '%s.%s.safety:%s' % (uid, short, re.sub(r'[^a-z0-9]+', '-', desc.lower())[:60].strip('-'))
+                res['failed'].append({'id': cid, 'kind': 'kani-check', 'message': desc, 'harness': h['name'],
+                                      'location': c['location'], 'bounded': bool(h.get('bounded'))})
         for h in hs:
             if h['name'] not in seen:
                 undec.append('harness %s produced no result' % h['name'])
